@@ -26,6 +26,8 @@ from typing import Any, Callable
 import pytest
 from _pytest.config import _prepareconfig
 
+from common import esc, show_nat_list, show_str_list
+
 import execnet
 
 SHUT = "SHUTDOWN"
@@ -172,6 +174,8 @@ class SimWorker:
         self.c2w.clear()
         self.w2c.append("END")
         self.end_queued = True
+        if self.sim.cfg.oserror_window:
+            self.sim._flag_lines.append(f"flag-broken {self.id[2:]}")
         self.sim.log(f"crash {self.id} ({why}) at pc={self.pc} cur={self.cur} next={self.next} q={list(self.queue)}")
 
     def holding(self) -> list[int]:
@@ -359,16 +363,25 @@ class Recorder:
         node = getattr(report, "node", None)
         self.sim.published.append(("test", getattr(node, "gateway", None) and node.gateway.id, report.nodeid, report.when,
                                    report.outcome, str(report.longrepr) if report.longrepr else "", report))
-        self.sim.obs_pub.append(f"rep:{getattr(node, 'gateway', None) and node.gateway.id}:{report.nodeid}:{report.when}:{report.outcome}")
+        num = node.gateway.id[2:] if node is not None else "?"
+        if report.when == "???":
+            self.sim.obs_pub.append(f"crash:{num}:{esc(report.nodeid)}:{'1' if self.sim._crash_requeued else '0'}")
+        else:
+            self.sim.obs_pub.append(f"rep:{num}:{'1' if report.failed else '0'}")
 
     @pytest.hookimpl
     def pytest_collectreport(self, report: Any) -> None:
-        self.sim.published.append(("collect", None, report.nodeid, None, report.outcome, str(report.longrepr), report))
-        self.sim.obs_pub.append(f"collect:{report.nodeid}:{report.outcome}")
+        text = str(report.longrepr)
+        self.sim.published.append(("collect", None, report.nodeid, None, report.outcome, text, report))
+        if "Different tests were collected between" in text:
+            self.sim.wirelog.append((report.nodeid, "collectreport", {"text": text, "outcome": report.outcome}))
+        else:
+            self.sim.obs_pub.append(f"collect:{esc(text)}")
 
     @pytest.hookimpl
     def pytest_testnodedown(self, node: Any, error: Any) -> None:
         self.sim.nodedown.append((node.gateway.id, None if error is None else str(error)[:40]))
+        self.sim.obs_pub.append(f"down:{node.gateway.id[2:]}:{'0' if error is None else '1'}")
 
     @pytest.hookimpl
     def pytest_testnodeready(self, node: Any) -> None:
@@ -378,6 +391,7 @@ class Recorder:
     def pytest_handlecrashitem(self, crashitem: str, report: Any, sched: Any) -> None:
         self.sim.crashitems.append((crashitem, report.node.gateway.id))
         left = self.sim.requeue_left.get(crashitem, 0)
+        self.sim._crash_requeued = left > 0
         if left > 0:
             self.sim.requeue_left[crashitem] = left - 1
             self.sim.requeued.append(crashitem)
@@ -455,6 +469,12 @@ class Sim:
         self.dsession: Any = None
         self.ctl_trace: list[dict[str, Any]] = []         # per loop_once: event, commands, publications (for the Lean tie)
         self._flag_lines: list[str] = []
+        self._crash_requeued = False
+        self._last_requeue_mark = 0
+        self._open: dict[str, Any] | None = None
+        self.spec_keys: dict[str, int] = {}
+        self.ctl_lines: list[str] = []      # input of the Lean `ctl` driver
+        self.ctl_obs: list[str] = []        # what the real controller did, in the driver's observation format
 
     # ---- plumbing
     def log(self, s: str) -> None:
@@ -476,6 +496,11 @@ class Sim:
         gw.worker = w
         self.workers.append(w)
         self.by_id[gw.id] = w
+        key = str(spec)
+        self.spec_keys.setdefault(key, len(self.spec_keys))
+        self._flag_lines.append(f"spec {gw.id[2:]} {self.spec_keys[key]}")
+        if self._open is not None:
+            self.obs_pub.append(f"spawn:{gw.id[2:]}")
         return gw
 
     # ---- the environment
@@ -494,6 +519,7 @@ class Sim:
         """called by the real loop_once: run the environment until an event is handed to the controller"""
         q = self.dsession.queue
         cfg, rng = self.cfg, self.rng
+        self.finalize_event(None)
         while True:
             self.steps += 1
             if self.steps > cfg.max_steps:
@@ -543,6 +569,7 @@ class Sim:
             msg = w.w2c.popleft()
             node = w.node
             before = node._down
+            sent_before = node._shutdown_sent
             if msg == "END":
                 w.end_seen = True
                 from xdist.workermanage import Marker
@@ -551,7 +578,9 @@ class Sim:
             else:
                 node.process_from_remote(msg)
             if node._down and not before:
-                self._flag_lines.append(f"down {w.number}")
+                self._flag_lines.append(f"flag-down {w.id[2:]}")
+            if node._shutdown_sent and not sent_before:
+                self._flag_lines.append(f"flag-sent {w.id[2:]}")
         else:
             raise ValueError(kind)
 
@@ -560,13 +589,112 @@ class Sim:
         callname, kwargs = item
         node = kwargs.get("node")
         self.ctl_events.append((callname, node.gateway.id if node is not None else "-"))
-        self._current = {"event": callname, "node": node.gateway.id if node is not None else None,
-                         "kwargs": {k: v for k, v in kwargs.items() if k in ("ids", "item_index", "duration", "indices")},
-                         "wire_from": len(self.wirelog), "pub_from": len(self.obs_pub), "flags": self._flag_lines,
-                         "workers_from": len(self.workers)}
+        self.ctl_lines += self._flag_lines
+        self.ctl_obs += ["ok"] * len(self._flag_lines)
         self._flag_lines = []
-        self.ctl_trace.append(self._current)
+        self._crash_requeued = False
+        self._open = {"event": callname, "kwargs": kwargs, "wire_from": len(self.wirelog), "pub_from": len(self.obs_pub)}
         return item
+
+    def event_line(self, callname: str, kw: dict[str, Any]) -> str:
+        node = kw.get("node")
+        n = node.gateway.id[2:] if node is not None else "?"
+        if callname == "workerready":
+            return f"ready {n}"
+        if callname == "workerfinished":
+            wo = node.workeroutput
+            opt = lambda v: esc(str(v)) if v else "-"  # noqa: E731
+            return f"fin {n} {wo['exitstatus']} {opt(wo['shouldfail'])} {opt(wo['shouldstop'])}"
+        if callname == "internal_error":
+            return f"ierr {n}"
+        if callname == "errordown":
+            return f"errdown {n} {'1' if self._crash_requeued else '0'}"
+        if callname == "collectionfinish":
+            return f"coll {n} {show_str_list(kw['ids'])}"
+        if callname == "testreport":
+            return f"rep {n} {'1' if kw['rep'].failed else '0'}"
+        if callname == "runtest_protocol_complete":
+            return f"done {n} {kw['item_index']} {'1' if kw['duration'] >= 0.1 else '0'}"
+        if callname == "unscheduled":
+            return f"unsched {n} {show_nat_list(kw['indices'])}"
+        if callname == "collectreport":
+            return f"crep {n} {esc(str(kw['rep'].longrepr))} {'1' if kw['rep'].failed else '0'}"
+        return "other"
+
+    def finalize_event(self, exc: BaseException | None) -> None:
+        """closes the record of the loop iteration that has just ended (or raised)"""
+        o = self._open
+        if o is None and exc is not None and "no active workers" in str(exc):
+            # raised by loop_once before it takes an event (the previous iteration was closed when the emptiness of
+            # `_active_nodes` was tested)
+            self.ctl_lines.append("other")
+            self.ctl_obs.append("RuntimeError")
+            return
+        if o is None:
+            if not self.ctl_lines and self.dsession is not None and self.dsession.sched is not None:
+                ds = self.dsession
+                mr = ds._max_worker_restart
+                self.ctl_lines.append(f"init {self.cfg.mode} {len(ds.nodemanager.specs)} {self.cfg.msc} {ds.maxfail or 0} {mr}")
+                self.ctl_obs.append(self.render_obs(0, 0))
+                self.ctl_lines += self._flag_lines
+                self.ctl_obs += ["ok"] * len(self._flag_lines)
+                self._flag_lines = []
+            return
+        self._open = None
+        self.ctl_lines.append(self.event_line(o["event"], o["kwargs"]))
+        if exc is not None:
+            self.ctl_obs.append(type(exc).__name__)
+        else:
+            self.ctl_obs.append(self.render_obs(o["wire_from"], o["pub_from"]))
+
+    def render_obs(self, wire_from: int, pub_from: int) -> str:
+        import t1_sched
+
+        ds = self.dsession
+        outs = []
+        for wid, name, kw in self.wirelog[wire_from:]:
+            k = wid[2:]
+            if name == "runtests":
+                outs.append(f"run:{k}:{show_nat_list(kw['indices'])}")
+            elif name == "runtests_all":
+                outs.append(f"runall:{k}")
+            elif name == "steal":
+                outs.append(f"steal:{k}:{show_nat_list(kw['indices'])}")
+            elif name == "shutdown":
+                outs.append(f"shutdown:{k}")
+            elif name == "collectreport":
+                import re
+
+                m = re.search(r"between (gw\d+) and (gw\d+)", kw["text"])
+                first = m.group(1)[2:] if m else "?"
+                ok = m is not None and m.group(2) == wid and kw["outcome"] == "failed"
+                outs.append(f"collectreport:{k}:{first}" + ("" if ok else ":MALFORMED"))
+        pubs = self.obs_pub[pub_from:]
+        ss = ds.shouldstop
+        if not ss:
+            stop = "-"
+        elif str(ss).startswith("stopping after "):
+            stop = f"maxfail:{str(ss).split()[2]}"
+        elif "received keyboard-interrupt" in str(ss):
+            stop = f"kbd:{str(ss).split()[1][2:].rstrip('>')}"
+        else:
+            stop = f"worker:{esc(str(ss))}"
+        sr = ds._summary_report
+        if sr is None:
+            summ = "-"
+        elif sr.startswith("maximum crashed workers reached: "):
+            summ = "maximum:" + sr.rsplit(" ", 1)[1]
+        elif sr.startswith("worker gw") and sr.endswith("crashed and worker restarting disabled"):
+            summ = "disabled:" + sr.split()[1][2:]
+        else:
+            summ = "?" + esc(sr)
+        rs = t1_sched.RealSched.__new__(t1_sched.RealSched)
+        rs.sched, rs.mode = ds.sched, self.cfg.mode
+        active = sorted(int(n.gateway.id[2:]) for n in ds._active_nodes)
+        b = lambda x: "1" if x else "0"  # noqa: E731
+        return (f"ok | {';'.join(outs) or '-'} | {';'.join(pubs) or '-'} | sd={b(ds.shuttingdown)} stop={stop} "
+                f"active={show_nat_list(active)} fin={b(ds.session_finished)} cf={ds.countfailures} fn={ds._failed_nodes_count} "
+                f"sum={summ} | {rs.obs()}")
 
     # ---- running
     def run(self) -> None:
@@ -586,12 +714,24 @@ class Sim:
         self.dsession = ds
         config.pluginmanager.register(ds, "dsession")     # as pytest_configure does (its make_scheduler hook is needed)
         ds.queue = SimQueue(self)  # type: ignore[assignment]
+
+        class ObservedSet(set):  # type: ignore[type-arg]
+            """`_active_nodes`: when the loop finds it empty, the iteration that has just ended is recorded first"""
+
+            def __len__(inner) -> int:  # noqa: N805
+                n = set.__len__(inner)
+                if n == 0 and sim._open is not None:
+                    sim.finalize_event(None)
+                return n
+
+        ds._active_nodes = ObservedSet()
         orig_setup_node = D.NodeManager.setup_node
 
         def setup_node(nm: Any, spec: Any, putevent: Any) -> Any:
             node = orig_setup_node(nm, spec, putevent)
             w = self.by_id[node.gateway.id]
             w.node = node
+            node._verif_id = w.number if False else int(node.gateway.id[2:])
             return node
 
         D.NodeManager.setup_node = setup_node  # type: ignore[method-assign]
@@ -604,19 +744,23 @@ class Sim:
             try:
                 ds.pytest_sessionstart(FakeSession())  # type: ignore[arg-type]
                 r = ds.pytest_runtestloop()
+                self.finalize_event(None)
                 self.outcome = ("finished", str(r))
             except D.Interrupted as e:
+                self.finalize_event(None)
                 self.outcome = ("interrupted", str(e))
             except StandOff as e:
                 self.outcome = ("standoff", str(e))
             except StepBudget as e:
                 self.outcome = ("nobudget", str(e))
             except RuntimeError as e:
+                self.finalize_event(e)
                 if "no active workers" in str(e):
                     self.outcome = ("noworkers", str(e))
                 else:
                     self.outcome = ("error", f"{type(e).__name__}: {e}")
             except Exception as e:  # noqa: BLE001
+                self.finalize_event(e)
                 import traceback
 
                 tb = traceback.extract_tb(e.__traceback__)
